@@ -222,9 +222,16 @@ def beginRound (c : Cfg) (ts : Rat) (samples : List Sample) (s : St) : St :=
       (setVar c st ts x.typ x.v x.val false).emit (.obs ts x.typ x.v x.val)) s3
 
 /-- is member `m` visited in this round?  In the final round every member that is still
-auditing is visited, woken or not (C02 repair, `fix:` commit). -/
-def visited (final : Bool) (s : St) (m : Member) : Bool :=
+auditing is visited, woken or not (C02 repair, `fix:` commit).  `visitedWoken` below is the rule before the second
+repair: an `audits throughout` auditor none of whose variables is ever assigned was never visited at all. -/
+def visitedWoken (final : Bool) (s : St) (m : Member) : Bool :=
   m.isAuditor && ((s.aud m.name).activated || (final && (s.aud m.name).auditing))
+
+def visited (final : Bool) (s : St) (m : Member) : Bool :=
+  m.isAuditor && ((s.aud m.name).activated || (final && (s.aud m.name).auditing)
+    -- an auditor whose condition depends on nothing (`audits throughout`) does not wait for a variable of its
+    -- other expressions to be assigned before its period starts (repair of the "never woken" defect)
+    || (!final && !(s.aud m.name).auditing && m.cond.deps.isEmpty))
 
 /-- `checkEvent` -/
 def round (c : Cfg) (final : Bool) (ts : Rat) (samples : List Sample) (s : St) : St :=
